@@ -878,8 +878,20 @@ def _m_callable(I, args, kwargs, node):
 
 
 def _m_set(I, args, kwargs, node):
+    from .sets import m_set_of
+    r = m_set_of(I, args, kwargs, node)
+    if r is not None:
+        return r
     from .pandas_m import m_set
     return m_set(I, args, kwargs, node)
+
+
+def _m_frozenset(I, args, kwargs, node):
+    from .sets import m_set_of
+    r = m_set_of(I, args, kwargs, node)
+    if r is not None:
+        return r
+    raise Unsupported("frozenset() of something that is not a symbolic set")
 
 
 def _m_is_fresh(I, args, kwargs, node):
@@ -949,7 +961,7 @@ def inspect_isclass(p):
 
 Engine.builtin_models = {
     hash: _m_hash,
-    set: _m_set, sum: _m_sum, sorted: _m_sorted,
+    set: _m_set, frozenset: _m_frozenset, sum: _m_sum, sorted: _m_sorted,
     len: _m_len, isinstance: _m_isinstance, range: _m_range, list: _m_list, tuple: _m_tuple,
     str: _m_str, enumerate: _m_enumerate, zip: _m_zip, hasattr: _m_hasattr, getattr: _m_getattr,
     setattr: _m_setattr, all: _m_all, any: _m_any, type: _m_type, slice: _m_slice,
